@@ -2,8 +2,8 @@
 # usage: tools/try_mutant.sh <patch.diff> [Cxx ...]   -- applies the patch to /repo, runs the given checks
 # (default: all 20, quick tier), prints one line per check, and ALWAYS restores /repo afterwards.
 set -u
+PATCH="$(readlink -f "$1")"; shift
 cd "$(dirname "$0")/.."
-PATCH="$1"; shift
 PROPS="${*:-C01 C02 C03 C04 C05 C06 C07 C08 C09 C10 C11 C12 C13 C14 C15 C16 C17 C18 C19 C20}"
 if ! git -C /repo diff --quiet; then echo "/repo has uncommitted changes; refusing"; exit 2; fi
 git -C /repo apply "$PATCH" || { echo "patch does not apply"; exit 2; }
